@@ -244,7 +244,8 @@ struct DecNum {
 	std::string digits; // significant digits (no leading zeros unless value 0)
 	long e10 = 0;       // value = digits * 10^e10
 	bool ok = false;
-	bool exp_huge = false;
+	bool exp_huge = false; // exponent magnitude beyond 10^8: the value is 0 or infinite in binary64 whatever the digits
+	bool exp_neg = false;
 };
 // parse a JSON-grammar number text (also tolerates leading '+', leading zeros) into digits*10^e10
 inline DecNum parse_decimal(const std::string &t)
@@ -285,6 +286,7 @@ inline DecNum parse_decimal(const std::string &t)
 			return r;
 		if (eneg)
 			ex = -ex;
+		r.exp_neg = eneg;
 	}
 	if (i != t.size())
 		return r;
@@ -326,7 +328,9 @@ inline int correctly_rounded(const std::string &text, double r)
 	}
 	long mag10 = (long)dg.size() + e10; // V < 10^mag10, V >= 10^(mag10-1)
 	const uint64_t INF = 0x7ff0000000000000ULL;
-	if (dn.exp_huge || mag10 > 400)
+	if (dn.exp_huge && dg.size() < 50000000)
+		return (dn.exp_neg ? rb == 0 : rb == INF) ? 1 : 0; // |exponent| > 10^8 dwarfs any digit count we handle
+	if (mag10 > 400)
 		return rb == INF ? 1 : 0; // far above DBL_MAX (1.8e308)
 	if (mag10 < -400)
 		return rb == 0 ? 1 : 0; // far below half the smallest subnormal (2.5e-324)
